@@ -404,6 +404,9 @@ func drive(args []string) int {
 		}
 	}
 	viols = append(viols, fuzzViols...)
+	if fuzzWorkerDeaths > 0 {
+		merged.obs["fuzz worker processes that ended unexpectedly on an input that passes when run again (fuzzing restarted)"] = fuzzWorkerDeaths
+	}
 	if fuzzExecs >= 0 {
 		merged.obs["native fuzz executions"] = fuzzExecs
 		merged.obs["native fuzz new-coverage inputs"] = fuzzNew
@@ -534,6 +537,9 @@ func drive(args []string) int {
 var reFuzzExecs = regexp.MustCompile(`execs: (\d+) .*new interesting: (\d+)`)
 var reFuzzFail = regexp.MustCompile(`Failing input written to (testdata/fuzz/\S+)`)
 
+// fuzzWorkerDeaths counts fuzz worker processes that ended unexpectedly on an input that passes when run again.
+var fuzzWorkerDeaths int64
+
 // runFuzzJob runs `go test -fuzz` on the property's native fuzz target for millions x 10^6 executions.
 func runFuzzJob(prop string, seed int64, tier string, millions int64) (execs, interesting int64, viols []drv.Violation, note string) {
 	mf, err := writeModfile("plain")
@@ -545,6 +551,8 @@ func runFuzzJob(prop string, seed int64, tier string, millions int64) (execs, in
 		return 0, 0, nil, "fuzz overlay: " + err.Error()
 	}
 	target := "Fuzz" + prop
+	attempt := 0
+again:
 	args := []string{"test", "-modfile=" + mf, "-overlay=" + ov, "-run=^$", "-fuzz=^" + target + "$", fmt.Sprintf("-fuzztime=%dx", millions*1000000), "-parallel=16", "./fuzz"}
 	cmd := exec.Command("go", args...)
 	cmd.Dir = harnessDir()
@@ -565,6 +573,25 @@ func runFuzzJob(prop string, seed int64, tier string, millions int64) (execs, in
 	if m != nil {
 		crasher := filepath.Join(harnessDir(), "fuzz", m[1])
 		raw, _ = os.ReadFile(crasher)
+		if !strings.Contains(out, "VIOLATION {") && attempt == 0 {
+			// a fuzz worker process ended without the monitor having judged anything ("terminated unexpectedly").
+			// Run the recorded input again, alone, in fresh processes: if it passes, the death is not a property
+			// of the input; fuzzing is then started once more and the event is recorded as an observation.
+			rr := exec.Command("go", "test", "-modfile="+mf, "-overlay="+ov, "-run=^"+target+"$/"+filepath.Base(crasher), "-count=3", "./fuzz")
+			rr.Dir = harnessDir()
+			rr.Env = cmd.Env
+			rout, rerr := rr.CombinedOutput()
+			if rerr == nil {
+				os.Remove(crasher)
+				os.Remove(filepath.Dir(crasher))
+				os.Remove(filepath.Dir(filepath.Dir(crasher)))
+				os.Remove(filepath.Dir(filepath.Dir(filepath.Dir(crasher))))
+				fuzzWorkerDeaths++
+				attempt++
+				goto again
+			}
+			out += "\n--- the recorded input run again alone:\n" + string(rout)
+		}
 		os.Remove(crasher) // never leave a crasher in the tree: the next run must start clean
 		os.Remove(filepath.Dir(crasher))
 		os.Remove(filepath.Dir(filepath.Dir(crasher)))
